@@ -194,6 +194,21 @@ func genSchema(t *rapid.T, allowBoolAndEnumResults bool) (string, []mdef, map[st
 			isEnum[d.Res] = false
 		}
 	}
+	// the constructors of a type need not stand next to each other in a schema file (api_23.tl and the e2e schemas mix
+	// them): one schema in three is written in a drawn order
+	if len(defs) >= 3 && rapid.IntRange(0, 2).Draw(t, "interleave") == 0 {
+		for i := len(defs) - 1; i > 0; i-- {
+			j := rapid.IntRange(0, i).Draw(t, "perm")
+			defs[i], defs[j] = defs[j], defs[i]
+		}
+		seen, last := map[string]bool{}, ""
+		for _, d := range defs {
+			if d.Res != last && seen[d.Res] {
+				feats["constructors-of-a-type-not-adjacent"] = true
+			}
+			seen[d.Res], last = true, d.Res
+		}
+	}
 	nf := rapid.IntRange(0, 4).Draw(t, "nf")
 	for i := 0; i < nf; i++ {
 		d := mdef{Name: fmt.Sprintf("%scall%d", rapid.SampledFrom([]string{"", "fn.", "messages."}).Draw(t, "fns"), i), ID: nextID(), Fn: true, Params: genParams()}
